@@ -479,6 +479,37 @@ def r04_24(run, model):
     run.floor("arms handing a matched ANF expression to the expression compiler", n, 6)
 
 
+def r04_26(run, model):
+    run.rule("R04.26", "the receiver is not part of the question `can this method be called through dyn`: every trait method takes Self as its "
+                       "first parameter, so the predicate on FnScheme that looks for Self in a signature leaves the first parameter out; counting it "
+                       "makes every method non-dispatchable, the vtable's signature types are no longer collected and the Go backend panics on "
+                       "the first generic instance a vtable mentions")
+    ENV = "crates/compiler/src/env.rs"
+    preds = [f for f in model.fns(ENV) if f.impl == "FnScheme" and f.body is not None and S.norm_ws(f.node.get("ret") or "") == "bool"]
+    n = 0
+    for f in preds:
+        for m_ in S.find(f.body, "Match"):
+            for arm in m_["arms"]:
+                pt = S.norm_ws(run.facts.text(ENV, arm["pat"]["sp"]))
+                mm = re.search(r"TFunc\{(\w+)", pt)
+                if not mm:
+                    continue
+                pname = mm.group(1)
+                for c in S.walk(arm["body"]):
+                    if c["k"] != "MethodCall" or c["method"] not in ("any", "all"):
+                        continue
+                    chain = S.norm_ws(run.facts.text(ENV, c["recv"]["sp"]))
+                    if not chain.startswith(pname + "."):
+                        continue
+                    n += 1
+                    ok = re.search(r"\.skip\(1\)|\[1\.\.\]", chain) is not None
+                    run.ob("R04.26", f"FnScheme::{f.name}|the scan of the parameters starts after the receiver", ok, site(ENV, c["sp"]),
+                           f"parameters scanned: `{chain}`",
+                           witness="trait Lookup { fn find(Self, int32) -> Opt[int32]; } used behind dyn: Opt__int32 is never collected for the "
+                                   "vtable and the Go emitter panics")
+    run.floor("parameter scans in the dyn-dispatch predicate of FnScheme", n, 1)
+
+
 def r04_25(run, model):
     run.rule("R04.25", "a type is taken apart by the helper that recognises its kind: in compile_match.rs a function that looks its type up "
                        "among the structs does not obtain the type arguments from the decomposer of enum types (and vice versa) - that helper "
@@ -733,5 +764,6 @@ def run(run, model):
     run.rule("R04.6", "no cyclic type can be built: shared with C03 R03.2 (occurs before binding; occurs handles every type former)")
     run.try_rule(c03.r03_2, model)
     run.try_rule(c07.r07_2, model, None, "C04")
+    run.try_rule(r04_26, model)
     run.assume("Parser::expect consumes an unexpected token unless it is in the recovery set; the analysis treats a failed expect as possibly non-advancing")
     run.assume("recursive grammar calls are summarised pessimistically while in progress; loops nested in a summarised function are treated as zero-or-more iterations")
